@@ -1,0 +1,15 @@
+//go:build verif
+
+package json
+
+import "github.com/goccy/go-json/internal/decoder"
+
+// Verification exports (build tag "verif"): the verification harness is a separate module and
+// cannot import internal packages.
+
+// VerifStreamEvent is one recorded step of a Decoder's stream window.
+type VerifStreamEvent = decoder.VerifStreamEvent
+
+// VerifSetStreamTracer installs (or, with nil, removes) the stream-window tracer.
+// Not safe for concurrent use with running decoders.
+func VerifSetStreamTracer(f func(VerifStreamEvent)) { decoder.VerifStreamTracer = f }
